@@ -51,6 +51,14 @@ def main():
                 print("    " + l[:260])
             if r.returncode not in (0, 1):
                 print(r.stdout[-1500:])
+            # a reported violation must replay: same signature again, in a fresh process, from the file alone
+            if r.returncode == 1 and "--no-replay" not in sys.argv:
+                rps = [l.split("replay=", 1)[1].strip() for l in r.stdout.splitlines() if l.startswith("VIOLATION") and "replay=" in l]
+                if rps and rps[0] != "None" and os.path.exists(rps[0]):
+                    rr = subprocess.run([os.path.join(VERIF, "check"), "replay", rps[0]], env=env, stdout=subprocess.PIPE, stderr=subprocess.STDOUT, text=True)
+                    verdict = "REPRODUCED (identical history)" if "identical history" in rr.stdout else ("REPRODUCED" if "REPRODUCED" in rr.stdout and "NOT-REPRODUCED" not in rr.stdout else "NOT reproduced")
+                    print(f"    replay of {os.path.basename(rps[0])}: {verdict}")
+                    results[p] = (results[p][0], results[p][1] + [f"replay: {verdict}"], results[p][2])
         rp = os.path.join(base, "replays")
         if os.path.isdir(rp):
             dst = os.path.join(ROOT, name + ".replays")
